@@ -38,7 +38,16 @@ func main() {
 	case "dump", "gen", "prove", "funcs":
 		cmdDev(os.Args[1], os.Args[2:])
 	case "check":
-		os.Exit(cmdCheck(os.Args[2:]))
+		rc := cmdCheck(os.Args[2:])
+		cleanupWorkDir()
+		os.Exit(rc)
+	case "replay":
+		if len(os.Args) < 3 {
+			usage()
+		}
+		rc := cmdReplay(os.Args[2])
+		cleanupWorkDir()
+		os.Exit(rc)
 	default:
 		usage()
 	}
@@ -60,6 +69,7 @@ func cmdDev(cmd string, args []string) {
 	smtDir := fs.String("smt", "", "write queries of non-proved obligations here")
 	verbose := fs.Bool("v", false, "verbose")
 	only := fs.String("only", "", "substring filter on obligation names")
+	cover := fs.Bool("cover", false, "also check reachability (vacuity) of every obligation")
 	fs.Parse(args)
 	e := mustLoad()
 	switch cmd {
@@ -85,6 +95,15 @@ func cmdDev(cmd string, args []string) {
 		return
 	}
 	var obls []*Obligation
+	for _, a := range fs.Args() {
+		if a == "lemmas" {
+			for _, o := range e.genLemmas().obls {
+				if *only == "" || strings.Contains(o.Name, *only) {
+					obls = append(obls, o)
+				}
+			}
+		}
+	}
 	for _, k := range expandFuncs(e, fs.Args()) {
 		f := e.funcs[k]
 		fc, err := e.genFunction(f)
@@ -140,6 +159,13 @@ func cmdDev(cmd string, args []string) {
 		}
 	}
 	fmt.Printf("%d/%d proved in %.1fs\n", np, len(obls), time.Since(t0).Seconds())
+	if *cover {
+		vac := runCovers(obls, header, time.Duration(*timeout)*time.Second)
+		for _, o := range vac {
+			fmt.Println("VACUOUS/unknown cover:", o.Name, o.Pos)
+		}
+		fmt.Printf("covers: %d/%d reachable\n", len(obls)-len(vac), len(obls))
+	}
 }
 
 func expandFuncs(e *Engine, pats []string) []string {
@@ -163,7 +189,7 @@ func expandFuncs(e *Engine, pats []string) []string {
 		if _, ok := e.funcs[p]; ok && !seen[p] {
 			seen[p] = true
 			out = append(out, p)
-		} else if !ok {
+		} else if !ok && p != "lemmas" {
 			fmt.Fprintln(os.Stderr, "warning: no function", p)
 		}
 	}
@@ -189,4 +215,31 @@ func runObligations(obls []*Obligation, header string, timeout time.Duration, al
 		}(o)
 	}
 	wg.Wait()
+}
+
+// runCovers returns the obligations whose program point could not be shown reachable.
+func runCovers(obls []*Obligation, header string, timeout time.Duration) []*Obligation {
+	sem := make(chan struct{}, 16)
+	var wg sync.WaitGroup
+	var mu sync.Mutex
+	var vac []*Obligation
+	for _, o := range obls {
+		if o.Kind == "lemma" {
+			continue
+		}
+		wg.Add(1)
+		sem <- struct{}{}
+		go func(o *Obligation) {
+			defer wg.Done()
+			defer func() { <-sem }()
+			r, _ := solve(o.CoverQuery(header), "cover_"+o.Name, timeout, false)
+			if r.Status != "sat" {
+				mu.Lock()
+				vac = append(vac, o)
+				mu.Unlock()
+			}
+		}(o)
+	}
+	wg.Wait()
+	return vac
 }
